@@ -358,6 +358,22 @@ def check_datagroup_histories(run, tree):
         ok = all(isinstance(r, Raised) and r.name == "ValueError" for r in (r1, r2, r3))
         return ok, "mapping form -> %s; keyword form -> %s; mixed -> %s" % tuple(("raises " + r.name) if isinstance(r, Raised) else "accepted" for r in (r1, r2, r3))
 
+    @hist("a member may have any name, also the name of a parameter of the constructor: copy() and the keyword form keep it",
+          "a member called 'name' (or like any other constructor parameter) is swallowed by Datagroup(**members): copy() loses it")
+    def h16(g, do):
+        ci_ = tree.cls(DG_Q)
+        init = tree.method(ci_, "__init__")
+        pnames = [a.arg for a in init.node.args.args[1:] + init.node.args.kwonlyargs] if init is not None else []
+        names = sorted(set(pnames) | {"name", "parent", "shape", "unit"})
+        for nm in names:
+            do("set", nm, A("x-" + nm, 3))
+        cp = call_method(tree, hooks, g, "copy")
+        st = group_state(tree, hooks, cp) if isinstance(cp, PyObj) else None
+        kw = construct_group(**{nm: A("y-" + nm, 3) for nm in names})
+        st2 = group_state(tree, hooks, kw) if isinstance(kw, PyObj) else None
+        return st is not None and sorted(st) == names and st2 is not None and sorted(st2) == names, "copy() holds %s; keyword form holds %s (required %s)" % (
+            sorted(st) if st is not None else cp, sorted(st2) if st2 is not None else kw, names)
+
     @hist("the constructor stores and renames every item of a well-formed mapping, in order", "Datagroup({'a': x}) loses, reorders or does not rename items")
     def h13(g, do):
         r = construct_group({"p": A("x1", 3), "q": A("x2", 3)}, r=A("x3", 3))
@@ -726,6 +742,23 @@ def check_dataset_histories(run, tree):
             return False, "update accepted a non-group"
         except Raised as e:
             return ok and e.name == "TypeError", "names %r/%r; bad update raises %s" % (g1._attrs.get("name"), g2._attrs.get("name"), e.name)
+
+    @case("overwriting a key keeps its position; get / pop / in / len / iteration agree with the contents (empty groups included)",
+          "ds[k] = g for an existing non-last key moves k to the end; get(k) returns the default for a stored but empty group")
+    def c_order():
+        ds = new_ds()
+        gs = {k: new_group(tree, hooks) for k in ("a", "b", "c")}
+        for k, g in gs.items():
+            call_method(tree, hooks, ds, "__setitem__", k, g)
+        g2 = new_group(tree, hooks)
+        call_method(tree, hooks, ds, "__setitem__", "a", g2)
+        call_method(tree, hooks, ds, "update", {"b": new_group(tree, hooks)})
+        ev = _ev(tree, hooks, DS_Q + ".__init__")
+        order = list(ev.iterate(ds))
+        keys = list(call_method(tree, hooks, ds, "keys"))
+        got = call_method(tree, hooks, ds, "get", "a", "dflt")
+        return order == ["a", "b", "c"] and keys == ["a", "b", "c"] and got is g2 and call_method(tree, hooks, ds, "__len__") == 3, \
+            "iteration %s keys %s get('a') is the stored (empty) group: %s" % (order, keys, got is g2)
 
     @case("re-inserting the same group under its key renames it again", "a group stored under K, then under another key, then again under K keeps the other name")
     def c4():
